@@ -10,6 +10,9 @@ INVARIANT LastIsLastInside
 INVARIANT HistContext
 INVARIANT FlowContexts
 INVARIANT IterOnceEach
+INVARIANT OwnBinsContext
+PROPERTY MutateIsLocal
+PROPERTY FreshWhenYielded
 INVARIANT MapShape
 PROPERTY NoCrossTalk
 PROPERTY OutsideIgnored
